@@ -448,8 +448,9 @@ class Recfile(object):
 
         if self.is_ascii:
             # for ascii, make sure the data are in native format.  This greatly
-            # simplifies the C code
-            to_native_inplace(dataview)
+            # simplifies the C code.  Convert a copy: the caller's array must
+            # not be byte swapped
+            dataview = to_native(dataview)
 
         self.robj.Write(dataview)
 
@@ -983,6 +984,35 @@ def remove_dtype_byteorder(dtype):
         newdt.append(dt)
 
     return newdt
+
+
+def to_native(array):
+    """
+    Return the array itself if it is already in native byte order, otherwise
+    a byte swapped copy with native dtype.  The input is never modified.
+    """
+    if numpy.little_endian:
+        machine_little = True
+    else:
+        machine_little = False
+
+    data_little = False
+    if array.dtype.names is None:
+        data_little = is_little_endian(array.dtype)
+    else:
+        # assume all are same byte order: we only need to find one with
+        # little endian
+        for fname in array.dtype.names:
+            if is_little_endian(array[fname].dtype):
+                data_little = True
+                break
+
+    if (machine_little and not data_little) or (not machine_little and data_little):  # noqa
+        outdata = array.byteswap(False)
+        outdata.dtype = outdata.dtype.newbyteorder()
+        return outdata
+
+    return array
 
 
 def to_native_inplace(array):
